@@ -116,6 +116,8 @@ fn create_next_state<C: ContentAddrStore>(
     relevant_coins: &FxHashMap<CoinID, CoinDataHeight>,
     is_tip_906: bool,
 ) -> Result<UnsealedState<C>, StateError> {
+    // First create every output of the batch, and only then remove the inputs: a transaction may spend an
+    // output of a transaction that comes later in the slice, and that output must not survive the batch.
     for tx in transactions {
         let txhash = tx.hash_nosigs();
 
@@ -132,6 +134,8 @@ fn create_next_state<C: ContentAddrStore>(
                     .insert_coin(coinid, coin_data.clone(), is_tip_906);
             }
         }
+    }
+    for tx in transactions {
         for coinid in tx.inputs.iter() {
             next_state.coins.remove_coin(*coinid, is_tip_906);
         }
